@@ -337,11 +337,11 @@ Section Algebra.
   (* lift_x returns the even-y point with the given x *)
   Lemma lift_even x y : on (Some (x, y)) -> Z.even y = true -> lift x = Some (x, y).
   Proof.
-    intros Hon Hev. destruct (lift x) as [Q|] eqn:E.
-    - destruct (cl_lift_some _ _ _ _ _ _ L x (Some Q) E ltac:(congruence)) as (y' & EQ & HonQ & Hev').
+    intros Hon Hev. pose proof (proj1 (coords _ _ Hon)) as [Hx _]. destruct (lift x) as [Q|] eqn:E.
+    - destruct (cl_lift_some _ _ _ _ _ _ L x (Some Q) Hx E ltac:(congruence)) as (y' & EQ & HonQ & Hev').
       rewrite EQ in *. destruct (cl_x_det _ _ _ _ _ _ L x y y' Hon HonQ) as [->| ->]; auto.
       rewrite even_flip, Hev in Hev'. cbn in Hev'. congruence.
-    - exfalso. exact (cl_lift_none _ _ _ _ _ _ L x E y Hon).
+    - exfalso. exact (cl_lift_none _ _ _ _ _ _ L x Hx E y Hon).
   Qed.
 
   Definition chal (rb pk msg : bytes) : Z :=
@@ -385,13 +385,15 @@ Section Algebra.
     intros H. apply verify_true in H as (_&_&_&P&ry&E&?&?&_). repeat split; auto. congruence.
   Qed.
 
+  (* wf_bytes pk: the curve laws speak of lift on non-negative integers only, and be_val pk >= 0 needs
+     the elements of pk to be bytes *)
   Theorem schnorr_s_unique msg pk rb sb sb' :
     length rb = 32%nat -> length sb = 32%nat -> length sb' = 32%nat ->
-    wf_bytes sb -> wf_bytes sb' ->
+    wf_bytes pk -> wf_bytes sb -> wf_bytes sb' ->
     schnorr_verify sha256 p n add lift G msg pk (rb ++ sb) = Some true ->
     schnorr_verify sha256 p n add lift G msg pk (rb ++ sb') = Some true -> sb = sb'.
   Proof.
-    intros Hr Hs Hs' Hw Hw' V1 V2. pose proof n_pos as Hn.
+    intros Hr Hs Hs' Hwpk Hw Hw' V1 V2. pose proof n_pos as Hn.
     apply verify_true in V1 as (_&_&_&P&ry&EL&_&Hsn&E1&Hev).
     apply verify_true in V2 as (_&_&_&P'&ry'&EL'&_&Hsn'&E2&Hev').
     assert (P' = P) by congruence; subst P'. clear EL'.
@@ -399,7 +401,8 @@ Section Algebra.
     rewrite (skipn_app_len 32 rb) in Hsn, Hsn', E1, E2 by auto.
     pose proof (be_val_32_bound sb Hw Hs) as Hb. pose proof (be_val_32_bound sb' Hw' Hs') as Hb'.
     rewrite (point_mul_smul G) in E1, E2 by (try apply onG; lia).
-    destruct (cl_lift_some _ _ _ _ _ _ L (be_val pk) (Some P) EL ltac:(congruence)) as (y & EQ & HonP & _).
+    assert (Hpk0 : 0 <= be_val pk) by (apply le_val_nonneg, wf_bytes_rev, Hwpk).
+    destruct (cl_lift_some _ _ _ _ _ _ L (be_val pk) (Some P) Hpk0 EL ltac:(congruence)) as (y & EQ & HonP & _).
     set (X := point_mul_with add (Some P) _) in *.
     assert (HX : on X) by (apply point_mul_on; exact HonP).
     assert (H1 : on (Some (be_val rb, ry))) by (rewrite <- E1; apply onA; auto using smul_on, onG).
